@@ -3,3 +3,6 @@ use super::*;
 
 leaf_roundtrip!(t_c01_leaf_rt_object_id, 36, 33, ValueKind::ObjectId, |v: [[u8; 16]; 2]| Value::ObjectId(ObjectId::new(ObjectUuid(Uuid::from_bytes(v[0])), ObjectCookie(Uuid::from_bytes(v[1])))), Some(33));
 leaf_roundtrip!(t_c01_leaf_rt_service_id, 68, 65, ValueKind::ServiceId, |v: [[u8; 16]; 4]| Value::ServiceId(ServiceId::new(ObjectId::new(ObjectUuid(Uuid::from_bytes(v[0])), ObjectCookie(Uuid::from_bytes(v[1]))), ServiceUuid(Uuid::from_bytes(v[2])), ServiceCookie(Uuid::from_bytes(v[3])))), Some(65));
+
+#[cfg(verif_replay)]
+include!("/verif/.cache/replay/verif__leaf_rt_t.rs");
